@@ -303,3 +303,115 @@ class MemUnitSim:
     def tick(self, changes):
         for l, v in changes:
             self.mem[l] = v
+
+
+class DevBusSim:
+    """Control devices with instances (mirror of spec/Dev103.tla)."""
+
+    def __init__(self, bus):
+        import copy
+        self.dev = copy.deepcopy(bus["dev"])
+        self.dtr0, self.dtr1, self.dtr2 = bus["dtr0"], bus["dtr1"], bus["dtr2"]
+        self.fault = tuple(bus["fault"])
+        self.nans = 0
+        self.latch = []
+        self.quiescent = False
+        self.d24 = Decoder24()
+
+    @staticmethod
+    def value_bytes(bits):
+        n = len(bits)
+        nb = (n + 7) // 8
+        stream = [bits[k % n] for k in range(8 * nb)]
+        return [int("".join(str(b) for b in stream[8 * j:8 * j + 8]), 2) for j in range(nb)]
+
+    def _faulted(self, ans):
+        self.nans += 1
+        if self.fault[1] != "none" and self.nans == self.fault[0]:
+            return ("none", 0) if self.fault[1] == "silent" else ("err", 255)
+        return ans
+
+    @staticmethod
+    def _collect(ans):
+        ans = [a for a in ans if a >= 0]
+        if not ans:
+            return ("none", 0)
+        if len(ans) == 1:
+            return ("val", ans[0])
+        return ("err", 0)
+
+    def step(self, f):
+        name, dest, ob = self.d24.decode(f)
+        ib = (f >> 8) & 0xFF
+        k0 = ib if ib < 32 else -1
+
+        def addressed(d):
+            if dest is None:
+                return False
+            k, n = dest
+            return (k == "dshort" and d["short"] == n) or k == "dbcast" or (k == "dunaddr" and d["short"] == 255)
+
+        def q(fn):
+            return self._faulted(self._collect([fn(d) if addressed(d) else -1 for d in self.dev]))
+
+        def qi(fn):
+            return q(lambda d: fn(d["inst"][k0]) if 0 <= k0 < len(d["inst"]) else -1)
+
+        def upd(fn):
+            for d in self.dev:
+                if addressed(d) and 0 <= k0 < len(d["inst"]):
+                    fn(d["inst"][k0])
+            return ("none", 0)
+
+        if name == "DTR0":
+            self.dtr0 = ob
+        elif name == "DTR1":
+            self.dtr1 = ob
+        elif name == "DTR2":
+            self.dtr2 = ob
+        elif name == "DTR1DTR0":
+            self.dtr1, self.dtr0 = ib, ob
+        elif name == "DTR2DTR1":
+            self.dtr2, self.dtr1 = ib, ob
+        elif name == "StartQuiescentMode":
+            self.quiescent = True
+        elif name == "StopQuiescentMode":
+            self.quiescent = False
+        elif name == "QueryDeviceStatus":
+            return q(lambda d: d["status"])
+        elif name == "QueryNumberOfInstances":
+            return q(lambda d: len(d["inst"]))
+        elif name == "QueryInstanceEnabled":
+            return qi(lambda x: 255 if x["enabled"] else -1)
+        elif name == "QueryInstanceType":
+            return qi(lambda x: x["type"])
+        elif name == "QueryResolution":
+            return qi(lambda x: x["res"])
+        elif name == "QueryEventScheme":
+            return qi(lambda x: x["scheme"])
+        elif name == "SetEventScheme":
+            def f_(x):
+                if self.dtr0 <= 4:
+                    x["scheme"] = self.dtr0
+            return upd(f_)
+        elif name == "SetEventFilter":
+            def f_(x):
+                w = x["width"]
+                x["filter"] = [self.dtr0, self.dtr1 if w >= 16 else 0, self.dtr2 if w >= 24 else 0]
+            return upd(f_)
+        elif name == "QueryEventFilterZeroToSeven":
+            return qi(lambda x: x["filter"][0])
+        elif name == "QueryEventFilterEightToFifteen":
+            return qi(lambda x: x["filter"][1])
+        elif name == "QueryEventFilterSixteenToTwentyThree":
+            return qi(lambda x: x["filter"][2])
+        elif name == "QueryInputValue":
+            src = [d for d in self.dev if addressed(d) and 0 <= k0 < len(d["inst"])]
+            r = qi(lambda x: self.value_bytes(x["value"])[0])
+            self.latch = self.value_bytes(src[0]["inst"][k0]["value"])[1:] if src else []
+            return r
+        elif name == "QueryInputValueLatch":
+            a = ("val", self.latch[0]) if self.latch else ("none", 0)
+            self.latch = self.latch[1:]
+            return self._faulted(a)
+        return ("none", 0)
